@@ -35,6 +35,7 @@ type caseSpec struct {
 	Broadcast  bool   `json:"broadcast"`  // delivery path of the mutant
 	ChildFirst bool   `json:"childFirst"` // deliver B's child C before the genuine B
 	Twice      bool   `json:"twice"`      // deliver the mutant twice
+	BeforeParent bool `json:"beforeParent"` // the mutant arrives before B's parent (it waits in the orphan pool until the parent is connected)
 	Pool       int    `json:"pool"`       // B's transactions already in the follower's pool when the mutant arrives: 0 none, 1 all, 2 all but the last
 }
 
@@ -42,7 +43,7 @@ var bodyMuts = []string{"dropTx", "dupTx", "swapTx", "alterAmount", "alterSig", 
 
 const knownPoolSig = "C28-pool-hash-hit-skips-signature-check"
 
-var headerMuts = []string{"heightPlus", "heightMinus", "txRoot", "stateRoot", "recomputedRootWrongState", "unknownParent"}
+var headerMuts = []string{"heightPlus", "heightMinus", "heightForged", "heightForged", "txRoot", "stateRoot", "recomputedRootWrongState", "unknownParent"}
 
 var builder *chainfix.Builder
 
@@ -101,7 +102,7 @@ func getFixture(trunk, ntx int) *fixture {
 }
 
 // mutate returns the mutant and whether its header hash equals B's.
-func mutate(cfg *types.Chain33Config, B *types.Block, c caseSpec) (*types.Block, bool) {
+func mutate(cfg *types.Chain33Config, parent, B *types.Block, c caseSpec) (*types.Block, bool) {
 	m := types.Clone(B).(*types.Block)
 	n := len(m.Txs)
 	i, j := c.I%n, c.J%n
@@ -139,6 +140,29 @@ func mutate(cfg *types.Chain33Config, B *types.Block, c caseSpec) (*types.Block,
 		m.Height++
 	case "heightMinus":
 		m.Height--
+	case "heightForged":
+		// a header height that is not parent+1, with tx root and state root made consistent with executing the body at
+		// that height (what a careless verifier would compute); if the producer's executor cannot execute at that height
+		// only the tx root is recomputed
+		h := []int64{0, -1, B.Height - 1, B.Height + 1, B.Height + 5, 1}[c.I%6]
+		if h == B.Height {
+			h = 0
+		}
+		var fm *types.Block
+		if parent != nil {
+			func() {
+				defer func() { _ = recover() }()
+				if x, err := builder.ChildAt(parent, B.Txs, B.Difficulty, B.BlockTime, h); err == nil && len(x.Txs) == len(B.Txs) {
+					fm = x
+				}
+			}()
+		}
+		if fm != nil {
+			m = fm
+		} else {
+			m.Height = h
+			m.TxHash = merkle.CalcMerkleRoot(cfg, m.Height, m.Txs)
+		}
 	case "txRoot":
 		m.TxHash = append([]byte{}, m.TxHash...)
 		m.TxHash[c.I%32] ^= 0x40
@@ -200,18 +224,40 @@ func reference(f *fixture, key string, withC bool) *chainfix.View {
 	return v
 }
 
+// referenceTrunk: the view of a node that only ever received the trunk.
+func referenceTrunk(f *fixture, key string) *chainfix.View {
+	k := key + "-trunk"
+	if v, ok := refViews[k]; ok {
+		return v
+	}
+	n := chainfix.NewNode()
+	defer n.Close()
+	for _, b := range f.trunk {
+		if _, _, err := n.Deliver(b, "ref", false); err != nil {
+			lib.Inconclusive("reference node rejected a genuine block: %v", err)
+		}
+	}
+	v := n.Snapshot(f.txs, f.addrs)
+	refViews[k] = v
+	return v
+}
+
 // runCase returns (sameHashMutant, toleratedKnown)
 func runCase(t lib.TB, test string, c caseSpec) (bool, bool) {
 	f := getFixture(c.Trunk, c.NTx)
 	n := chainfix.NewNode()
 	defer n.Close()
 	cfg := n.Cfg
-	for _, b := range f.trunk {
+	first := f.trunk
+	if c.BeforeParent {
+		first = f.trunk[:len(f.trunk)-1] // B's parent arrives only after the mutant
+	}
+	for _, b := range first {
 		if _, _, err := n.Deliver(b, "good", false); err != nil {
 			lib.Inconclusive("follower rejected a genuine trunk block: %v", err)
 		}
 	}
-	M, sameHash := mutate(cfg, f.B, c)
+	M, sameHash := mutate(cfg, f.trunk[len(f.trunk)-1], f.B, c)
 	if sameHash && sameBody(M, f.B) {
 		return sameHash, false // mutation was a no-op (e.g. swap of identical)
 	}
@@ -235,6 +281,13 @@ func runCase(t lib.TB, test string, c caseSpec) (bool, bool) {
 	for d := 0; d < deliveries; d++ {
 		_, err := n.GetBlockChain().ProcAddBlockMsg(c.Broadcast, &types.BlockDetail{Block: types.Clone(M).(*types.Block)}, "bad")
 		_ = err // orphan (unknown parent) is accepted silently, everything else must be an error; state is what counts
+	}
+	if c.BeforeParent {
+		// now the parent arrives and the waiting mutant is examined; the node must look like one that holds the trunk only
+		// (ProcessBlock reports the error of a waiting child that it examined next as the result of the parent's own
+		// delivery; the return value is not part of the property, the comparison below shows whether the parent went in)
+		_, _, _ = n.Deliver(f.trunk[len(f.trunk)-1], "good", false)
+		before = referenceTrunk(f, fmt.Sprintf("%d-%d", c.Trunk, c.NTx))
 	}
 	// (1) no side effects
 	after := n.Snapshot(f.txs, f.addrs)
@@ -306,6 +359,7 @@ func TestPropInvalidBlocks(t *testing.T) {
 			I: rapid.IntRange(0, 63).Draw(t, "i"), J: rapid.IntRange(0, 63).Draw(t, "j"),
 			Broadcast: rapid.Bool().Draw(t, "broadcast"), ChildFirst: rapid.Bool().Draw(t, "childFirst"), Twice: rapid.Bool().Draw(t, "twice"),
 			Pool: rapid.SampledFrom([]int{0, 0, 1, 1, 2}).Draw(t, "pool"),
+			BeforeParent: rapid.IntRange(0, 2).Draw(t, "beforeParent") == 0,
 		}
 		if rapid.IntRange(0, 2).Draw(t, "kind") > 0 {
 			c.Mut = rapid.SampledFrom(bodyMuts).Draw(t, "mut")
@@ -323,6 +377,9 @@ func TestPropInvalidBlocks(t *testing.T) {
 		lib.Class("mut:" + c.Mut)
 		if c.Pool > 0 {
 			lib.Class("txs_in_pool")
+		}
+		if c.BeforeParent {
+			lib.Class("mutant_before_its_parent")
 		}
 		if tolerated {
 			lib.Class("tolerated_known")
@@ -348,7 +405,7 @@ func TestKnown_TamperedBodyPoisonsHash(t *testing.T) {
 			lib.Inconclusive("follower rejected a genuine trunk block: %v", err)
 		}
 	}
-	M, _ := mutate(n.Cfg, f.B, c)
+	M, _ := mutate(n.Cfg, f.trunk[len(f.trunk)-1], f.B, c)
 	_, errM := n.GetBlockChain().ProcAddBlockMsg(true, &types.BlockDetail{Block: M}, "bad")
 	_, errB := n.GetBlockChain().ProcAddBlockMsg(true, &types.BlockDetail{Block: types.Clone(f.B).(*types.Block)}, "good")
 	_, tip := n.Tip()
